@@ -17,6 +17,9 @@ Definition typed_wv_agree : Prop :=
 Definition typed_datetime_agree : Prop :=
   forall v o, spec_datetime v = Some o -> decode_datetime v = POk o.
 
+(* the Wireless Village premise is needed only when the document's language is WV CSP 1.1 / 1.2 *)
+Definition wv_premise (l : lang) : Prop := (l_id l =? 2301) || (l_id l =? 2302) = true -> typed_wv_agree.
+
 Lemma opt_bytes_chars ro : chars_event ro = chars_of (opt_bytes ro).
 Proof. destruct ro as [[|b r]|]; reflexivity. Qed.
 
@@ -57,7 +60,7 @@ Ltac norm_tok :=
 Section Str.
 Variables (l : lang) (tb : bytes) (ver cs : N).
 Hypothesis Hcs : cs_ok cs.
-Hypothesis Hwv : typed_wv_agree.
+Hypothesis Hwv : wv_premise l.
 Let env := penv_of l tb ver cs.
 Let denv := mk_denv l tb.
 
@@ -79,7 +82,7 @@ Proof.
   intros Hb H. unfold decode_opaque_content. cbn [e_lang env penv_of].
   unfold is_wv_lang, is_syncml_lang.
   destruct ((l_id l =? 2301) || (l_id l =? 2302)) eqn:Ewv.
-  - rewrite (opaque_kind_wv cur Ewv) in H. apply Hwv; assumption.
+  - rewrite (opaque_kind_wv cur Ewv) in H. apply (Hwv Ewv); assumption.
   - unfold opaque_kind in H. rewrite Ewv in H.
     destruct cur as [[p t]|].
     + destruct (l_id l =? 1801) eqn:E1.
